@@ -1,15 +1,35 @@
-//! VerifVM: the binding type. (GC-capable parts live in `gcvm`; this file fixes the type-level
-//! configuration every component shares.)
+//! VerifVM: a real, complete MMTk binding used only by the verification harness.
+//!
+//! Object layout (little-endian, 8-byte aligned), `ref = start + REF_OFF` (`REF_OFF` = 8 by default,
+//! 0 with feature `unified_ref`):
+//! ```text
+//!   start+0          forwarding-pointer word (LOCAL_FORWARDING_POINTER_SPEC)       [only if REF_OFF = 8]
+//!   ref+0            header word reserved for in-header metadata bits (zero unless feature hdr_specs;
+//!                    with unified_ref this word doubles as the forwarding-pointer word)
+//!   ref+8            id:u32  nfields:u16  flags:u16
+//!   ref+16           size:u32 (total bytes from start)  payloadhash:u32
+//!   ref+24 ...       nfields 8-byte reference slots
+//!   ...              payload bytes, byte k = (id*31 + k) & 0xff
+//! ```
+//! flags: bit0 = reference object (field 0 is a weak referent and is NOT scanned), bit1 = free use
+//! (finalized-marked by harness), bits 8..10 = log2(align) - 3, bits 11..15 = align offset / 8
+//! (so that copies keep the allocation alignment).
+//!
+//! The runtime state (mutators, roots, safepoint protocol, weak tables) lives in [`crate::rt`].
+use crate::rt;
+use mmtk::util::alloc::AllocationError;
 use mmtk::util::copy::{CopySemantics, GCWorkerCopyContext};
 use mmtk::util::opaque_pointer::*;
 use mmtk::util::{Address, ObjectReference};
+use mmtk::verif::gc::{ev, Kind};
+use mmtk::vm::slot::{MemorySlice, SimpleSlot};
 use mmtk::vm::*;
 use mmtk::Mutator;
 
 #[derive(Default)]
 pub struct VerifVM;
 
-pub type VSlot = mmtk::vm::slot::SimpleSlot;
+pub type VSlot = SimpleSlot;
 
 impl VMBinding for VerifVM {
     type VMObjectModel = VObjectModel;
@@ -18,7 +38,7 @@ impl VMBinding for VerifVM {
     type VMActivePlan = VActivePlan;
     type VMReferenceGlue = VReferenceGlue;
     type VMSlot = VSlot;
-    type VMMemorySlice = mmtk::vm::slot::UnimplementedMemorySlice;
+    type VMMemorySlice = VSlice;
 
     const MIN_ALIGNMENT: usize = 8;
     const MAX_ALIGNMENT: usize = 64;
@@ -27,62 +47,259 @@ impl VMBinding for VerifVM {
     const ALIGNMENT_VALUE: u8 = 0;
 }
 
-pub struct VObjectModel;
-/// object reference = object start + 8 (so `ref != start`), except with `unified_ref`
-/// (the Compressor requires reference == start).
+// ---------------------------------------------------------------------------------------------
+// Object layout
+// ---------------------------------------------------------------------------------------------
+
+/// object reference = object start + OBJECT_REF_OFFSET.
 #[cfg(not(feature = "unified_ref"))]
 pub const OBJECT_REF_OFFSET: usize = 8;
 #[cfg(feature = "unified_ref")]
 pub const OBJECT_REF_OFFSET: usize = 0;
 
+pub const OFF_ID: usize = 8;
+pub const OFF_NFIELDS: usize = 12;
+pub const OFF_FLAGS: usize = 14;
+pub const OFF_SIZE: usize = 16;
+pub const OFF_HASH: usize = 20;
+pub const OFF_SLOTS: usize = 24;
+/// bytes from object start to the first slot
+pub const HEADER_BYTES: usize = OBJECT_REF_OFFSET + OFF_SLOTS;
+pub const MIN_OBJECT_SIZE: usize = 32;
+
+pub const FLAG_REFOBJ: u16 = 1;
+pub const FLAG_FINMARK: u16 = 2;
+
+/// Raw accessors on an object reference given as an address (`r` = the ref, not the start).
+pub mod obj {
+    use super::*;
+    #[inline]
+    pub fn rd<T: Copy>(a: usize) -> T {
+        unsafe { std::ptr::read_volatile(a as *const T) }
+    }
+    #[inline]
+    pub fn wr<T: Copy>(a: usize, v: T) {
+        unsafe { std::ptr::write_volatile(a as *mut T, v) }
+    }
+    pub fn start(r: usize) -> usize {
+        r - OBJECT_REF_OFFSET
+    }
+    pub fn id(r: usize) -> u32 {
+        rd(r + OFF_ID)
+    }
+    pub fn nfields(r: usize) -> usize {
+        rd::<u16>(r + OFF_NFIELDS) as usize
+    }
+    pub fn flags(r: usize) -> u16 {
+        rd(r + OFF_FLAGS)
+    }
+    pub fn set_flags(r: usize, f: u16) {
+        wr(r + OFF_FLAGS, f)
+    }
+    pub fn size(r: usize) -> usize {
+        rd::<u32>(r + OFF_SIZE) as usize
+    }
+    pub fn hash(r: usize) -> u32 {
+        rd(r + OFF_HASH)
+    }
+    pub fn slot(r: usize, i: usize) -> usize {
+        r + OFF_SLOTS + 8 * i
+    }
+    pub fn field(r: usize, i: usize) -> usize {
+        rd(slot(r, i))
+    }
+    pub fn payload_start(r: usize) -> usize {
+        r + OFF_SLOTS + 8 * nfields(r)
+    }
+    pub fn payload_len(r: usize) -> usize {
+        (start(r) + size(r)).saturating_sub(payload_start(r))
+    }
+    pub fn pattern(id: u32, k: usize) -> u8 {
+        ((id as usize).wrapping_mul(31).wrapping_add(k) & 0xff) as u8
+    }
+    /// FNV-1a over the payload bytes as they are in memory.
+    pub fn compute_hash(r: usize) -> u32 {
+        let p = payload_start(r);
+        let mut h: u32 = 0x811c9dc5;
+        for k in 0..payload_len(r) {
+            h ^= rd::<u8>(p + k) as u32;
+            h = h.wrapping_mul(0x01000193);
+        }
+        h
+    }
+    /// payload equals the id-derived pattern and the stored hash equals the recomputed one
+    pub fn hash_ok(r: usize) -> bool {
+        let p = payload_start(r);
+        let i = id(r);
+        for k in 0..payload_len(r) {
+            if rd::<u8>(p + k) != pattern(i, k) {
+                return false;
+            }
+        }
+        compute_hash(r) == hash(r)
+    }
+    pub fn align(r: usize) -> usize {
+        8usize << ((flags(r) >> 8) & 7)
+    }
+    pub fn align_offset(r: usize) -> usize {
+        ((flags(r) >> 11) as usize) * 8
+    }
+    /// total object size for the given shape
+    pub fn size_for(nfields: usize, payload: usize) -> usize {
+        let raw = HEADER_BYTES + 8 * nfields + payload;
+        let raw = (raw + 7) & !7;
+        raw.max(MIN_OBJECT_SIZE)
+    }
+    /// Initialise a freshly allocated object at `start` (memory assumed zero or arbitrary).
+    pub fn init(start: usize, id: u32, nfields: usize, size: usize, align: usize, offset: usize) -> usize {
+        let r = start + OBJECT_REF_OFFSET;
+        if OBJECT_REF_OFFSET != 0 {
+            wr::<usize>(start, 0);
+        }
+        wr::<usize>(r, 0);
+        wr::<u32>(r + OFF_ID, id);
+        wr::<u16>(r + OFF_NFIELDS, nfields as u16);
+        let mut fl: u16 = 0;
+        let la = align.trailing_zeros() as u16;
+        if (3..=6).contains(&la) && offset % 8 == 0 && offset / 8 < 32 {
+            fl |= (la - 3) << 8;
+            fl |= ((offset / 8) as u16) << 11;
+        }
+        wr::<u16>(r + OFF_FLAGS, fl);
+        wr::<u32>(r + OFF_SIZE, size as u32);
+        for i in 0..nfields {
+            wr::<usize>(slot(r, i), 0);
+        }
+        let p = payload_start(r);
+        for k in 0..payload_len(r) {
+            wr::<u8>(p + k, pattern(id, k));
+        }
+        wr::<u32>(r + OFF_HASH, compute_hash(r));
+        r
+    }
+}
+
+pub fn to_ref(r: usize) -> ObjectReference {
+    unsafe { ObjectReference::from_raw_address_unchecked(Address::from_usize(r)) }
+}
+
+// ---------------------------------------------------------------------------------------------
+// Object model
+// ---------------------------------------------------------------------------------------------
+
+pub struct VObjectModel;
+
+#[cfg(not(feature = "hdr_specs"))]
+impl VObjectModel {
+    const LOG: VMGlobalLogBitSpec = VMGlobalLogBitSpec::side_first();
+    const FWD_BITS: VMLocalForwardingBitsSpec = VMLocalForwardingBitsSpec::side_first();
+    const MARK: VMLocalMarkBitSpec = VMLocalMarkBitSpec::side_after(Self::FWD_BITS.as_spec());
+    #[cfg(feature = "has_pinning")]
+    const PIN: VMLocalPinningBitSpec = VMLocalPinningBitSpec::side_after(Self::MARK.as_spec());
+    #[cfg(feature = "has_pinning")]
+    const LOS: VMLocalLOSMarkNurserySpec = VMLocalLOSMarkNurserySpec::side_after(Self::PIN.as_spec());
+    #[cfg(not(feature = "has_pinning"))]
+    const LOS: VMLocalLOSMarkNurserySpec = VMLocalLOSMarkNurserySpec::side_after(Self::MARK.as_spec());
+}
+
+/// feature `hdr_specs`: forwarding bits (bits 0-1) and log bit (bit 3) live in the header word at
+/// `ref+0`; mark, LOS mark/nursery and pinning bits stay on the side.
+/// With `unified_ref` that word is also the forwarding pointer (whose low 3 bits are free), so the
+/// log bit stays on the side in that combination.
+#[cfg(feature = "hdr_specs")]
+impl VObjectModel {
+    #[cfg(not(feature = "unified_ref"))]
+    const LOG: VMGlobalLogBitSpec = VMGlobalLogBitSpec::in_header(3);
+    #[cfg(feature = "unified_ref")]
+    const LOG: VMGlobalLogBitSpec = VMGlobalLogBitSpec::side_first();
+    const FWD_BITS: VMLocalForwardingBitsSpec = VMLocalForwardingBitsSpec::in_header(0);
+    // NOTE: an in-header mark bit is rejected by ImmixSpace ("cyclic mark bits is not supported",
+    // immixspace.rs prepare) and every plan owns an ImmixSpace (the nonmoving space): mark stays on the side.
+    const MARK: VMLocalMarkBitSpec = VMLocalMarkBitSpec::side_first();
+    #[cfg(feature = "has_pinning")]
+    const PIN: VMLocalPinningBitSpec = VMLocalPinningBitSpec::side_after(Self::MARK.as_spec());
+    #[cfg(feature = "has_pinning")]
+    const LOS: VMLocalLOSMarkNurserySpec = VMLocalLOSMarkNurserySpec::side_after(Self::PIN.as_spec());
+    #[cfg(not(feature = "has_pinning"))]
+    const LOS: VMLocalLOSMarkNurserySpec = VMLocalLOSMarkNurserySpec::side_after(Self::MARK.as_spec());
+}
+
 impl ObjectModel<VerifVM> for VObjectModel {
-    const GLOBAL_LOG_BIT_SPEC: VMGlobalLogBitSpec = VMGlobalLogBitSpec::side_first();
+    const GLOBAL_LOG_BIT_SPEC: VMGlobalLogBitSpec = Self::LOG;
+    #[cfg(not(feature = "unified_ref"))]
     const LOCAL_FORWARDING_POINTER_SPEC: VMLocalForwardingPointerSpec =
         VMLocalForwardingPointerSpec::in_header(-64);
-    const LOCAL_FORWARDING_BITS_SPEC: VMLocalForwardingBitsSpec =
-        VMLocalForwardingBitsSpec::side_first();
-    const LOCAL_MARK_BIT_SPEC: VMLocalMarkBitSpec =
-        VMLocalMarkBitSpec::side_after(Self::LOCAL_FORWARDING_BITS_SPEC.as_spec());
+    #[cfg(feature = "unified_ref")]
+    const LOCAL_FORWARDING_POINTER_SPEC: VMLocalForwardingPointerSpec =
+        VMLocalForwardingPointerSpec::in_header(0);
+    const LOCAL_FORWARDING_BITS_SPEC: VMLocalForwardingBitsSpec = Self::FWD_BITS;
+    const LOCAL_MARK_BIT_SPEC: VMLocalMarkBitSpec = Self::MARK;
     #[cfg(feature = "has_pinning")]
-    const LOCAL_PINNING_BIT_SPEC: VMLocalPinningBitSpec =
-        VMLocalPinningBitSpec::side_after(Self::LOCAL_MARK_BIT_SPEC.as_spec());
-    #[cfg(feature = "has_pinning")]
-    const LOCAL_LOS_MARK_NURSERY_SPEC: VMLocalLOSMarkNurserySpec =
-        VMLocalLOSMarkNurserySpec::side_after(Self::LOCAL_PINNING_BIT_SPEC.as_spec());
-    #[cfg(not(feature = "has_pinning"))]
-    const LOCAL_LOS_MARK_NURSERY_SPEC: VMLocalLOSMarkNurserySpec =
-        VMLocalLOSMarkNurserySpec::side_after(Self::LOCAL_MARK_BIT_SPEC.as_spec());
+    const LOCAL_PINNING_BIT_SPEC: VMLocalPinningBitSpec = Self::PIN;
+    const LOCAL_LOS_MARK_NURSERY_SPEC: VMLocalLOSMarkNurserySpec = Self::LOS;
 
     const OBJECT_REF_OFFSET_LOWER_BOUND: isize = OBJECT_REF_OFFSET as isize;
     const UNIFIED_OBJECT_REFERENCE_ADDRESS: bool = cfg!(feature = "unified_ref");
 
     fn copy(
-        _from: ObjectReference,
-        _semantics: CopySemantics,
-        _copy_context: &mut GCWorkerCopyContext<VerifVM>,
+        from: ObjectReference,
+        semantics: CopySemantics,
+        copy_context: &mut GCWorkerCopyContext<VerifVM>,
     ) -> ObjectReference {
-        unimplemented!()
+        let fr = from.to_raw_address().as_usize();
+        let bytes = obj::size(fr);
+        let align = obj::align(fr);
+        let offset = obj::align_offset(fr);
+        let dst = copy_context.alloc_copy(from, bytes, align, offset, semantics);
+        assert!(!dst.is_zero(), "alloc_copy returned zero");
+        let from_start = obj::start(fr);
+        unsafe {
+            std::ptr::copy_nonoverlapping(from_start as *const u8, dst.to_mut_ptr::<u8>(), bytes);
+        }
+        let to = dst.as_usize() + OBJECT_REF_OFFSET;
+        // the copy must not inherit a forwarding pointer
+        if OBJECT_REF_OFFSET != 0 {
+            obj::wr::<usize>(dst.as_usize(), 0);
+        }
+        let to_obj = to_ref(to);
+        copy_context.post_copy(to_obj, bytes, semantics);
+        rt::note_copy(obj::id(to));
+        ev(Kind::VmCopy, obj::id(to) as usize, ((semantics as usize) << 48) | to);
+        to_obj
     }
-    fn copy_to(_from: ObjectReference, _to: ObjectReference, _region: Address) -> Address {
-        unimplemented!()
+
+    fn copy_to(from: ObjectReference, to: ObjectReference, _region: Address) -> Address {
+        let fr = from.to_raw_address().as_usize();
+        let tr = to.to_raw_address().as_usize();
+        let bytes = obj::size(fr);
+        let id = obj::id(fr);
+        if fr != tr {
+            unsafe {
+                std::ptr::copy(obj::start(fr) as *const u8, obj::start(tr) as *mut u8, bytes);
+            }
+            rt::note_copy(id);
+        }
+        ev(Kind::VmCopyTo, id as usize, tr);
+        unsafe { Address::from_usize(obj::start(tr) + bytes) }
     }
-    fn get_current_size(_object: ObjectReference) -> usize {
-        unimplemented!()
+
+    fn get_current_size(object: ObjectReference) -> usize {
+        obj::size(object.to_raw_address().as_usize())
     }
     fn get_size_when_copied(object: ObjectReference) -> usize {
         Self::get_current_size(object)
     }
-    fn get_align_when_copied(_object: ObjectReference) -> usize {
-        8
+    fn get_align_when_copied(object: ObjectReference) -> usize {
+        obj::align(object.to_raw_address().as_usize())
     }
-    fn get_align_offset_when_copied(_object: ObjectReference) -> usize {
-        0
+    fn get_align_offset_when_copied(object: ObjectReference) -> usize {
+        obj::align_offset(object.to_raw_address().as_usize())
     }
     fn get_reference_when_copied_to(_from: ObjectReference, to: Address) -> ObjectReference {
         unsafe { ObjectReference::from_raw_address_unchecked(to + OBJECT_REF_OFFSET) }
     }
     fn get_type_descriptor(_reference: ObjectReference) -> &'static [i8] {
-        unimplemented!()
+        &[]
     }
     fn ref_to_object_start(object: ObjectReference) -> Address {
         object.to_raw_address().sub(OBJECT_REF_OFFSET)
@@ -90,81 +307,193 @@ impl ObjectModel<VerifVM> for VObjectModel {
     fn ref_to_header(object: ObjectReference) -> Address {
         object.to_raw_address()
     }
-    fn dump_object(_object: ObjectReference) {}
+    fn dump_object(object: ObjectReference) {
+        let r = object.to_raw_address().as_usize();
+        eprintln!(
+            "obj {:#x} id={} nf={} flags={:#x} size={}",
+            r,
+            obj::id(r),
+            obj::nfields(r),
+            obj::flags(r),
+            obj::size(r)
+        );
+    }
 }
+
+// ---------------------------------------------------------------------------------------------
+// Memory slice: a range of reference slots inside one object
+// ---------------------------------------------------------------------------------------------
+
+#[derive(Clone, Debug, PartialEq, Eq, Hash)]
+pub struct VSlice {
+    pub start: Address,
+    pub end: Address,
+    /// the object containing the slots (raw ref, 0 = unknown)
+    pub object: usize,
+}
+
+unsafe impl Send for VSlice {}
+
+pub struct VSliceIter {
+    cursor: Address,
+    limit: Address,
+}
+
+impl Iterator for VSliceIter {
+    type Item = VSlot;
+    fn next(&mut self) -> Option<VSlot> {
+        if self.cursor >= self.limit {
+            None
+        } else {
+            let s = self.cursor;
+            self.cursor += 8usize;
+            Some(SimpleSlot::from_address(s))
+        }
+    }
+}
+
+impl MemorySlice for VSlice {
+    type SlotType = VSlot;
+    type SlotIterator = VSliceIter;
+    fn iter_slots(&self) -> VSliceIter {
+        VSliceIter { cursor: self.start, limit: self.end }
+    }
+    fn object(&self) -> Option<ObjectReference> {
+        ObjectReference::from_raw_address(unsafe { Address::from_usize(self.object) })
+    }
+    fn start(&self) -> Address {
+        self.start
+    }
+    fn bytes(&self) -> usize {
+        self.end - self.start
+    }
+    fn copy(src: &Self, tgt: &Self) {
+        debug_assert_eq!(src.bytes(), tgt.bytes());
+        unsafe {
+            std::ptr::copy(src.start.to_ptr::<u8>(), tgt.start.to_mut_ptr::<u8>(), src.bytes());
+        }
+    }
+}
+
+// ---------------------------------------------------------------------------------------------
+// Scanning
+// ---------------------------------------------------------------------------------------------
 
 pub struct VScanning;
 impl Scanning<VerifVM> for VScanning {
     fn scan_roots_in_mutator_thread(
         _tls: VMWorkerThread,
-        _mutator: &'static mut Mutator<VerifVM>,
-        _factory: impl RootsWorkFactory<VSlot>,
+        mutator: &'static mut Mutator<VerifVM>,
+        factory: impl RootsWorkFactory<VSlot>,
     ) {
-        unimplemented!()
+        rt::scan_mutator_roots(mutator, factory);
     }
-    fn scan_vm_specific_roots(_tls: VMWorkerThread, _factory: impl RootsWorkFactory<VSlot>) {
-        unimplemented!()
+    fn scan_vm_specific_roots(_tls: VMWorkerThread, factory: impl RootsWorkFactory<VSlot>) {
+        rt::scan_vm_roots(factory);
     }
     fn scan_object<SV: SlotVisitor<VSlot>>(
         _tls: VMWorkerThread,
-        _object: ObjectReference,
-        _slot_visitor: &mut SV,
+        object: ObjectReference,
+        slot_visitor: &mut SV,
     ) {
-        unimplemented!()
+        let r = object.to_raw_address().as_usize();
+        let n = obj::nfields(r);
+        let first = if obj::flags(r) & FLAG_REFOBJ != 0 { 1 } else { 0 };
+        for i in first..n {
+            slot_visitor.visit_slot(SimpleSlot::from_address(unsafe { Address::from_usize(obj::slot(r, i)) }));
+        }
     }
     fn notify_initial_thread_scan_complete(_partial_scan: bool, _tls: VMWorkerThread) {}
     fn supports_return_barrier() -> bool {
         false
     }
     fn prepare_for_roots_re_scanning() {}
+    fn process_weak_refs(
+        worker: &mut mmtk::scheduler::GCWorker<VerifVM>,
+        tracer_context: impl ObjectTracerContext<VerifVM>,
+    ) -> bool {
+        rt::process_weak_refs(worker, tracer_context)
+    }
+    fn forward_weak_refs(
+        worker: &mut mmtk::scheduler::GCWorker<VerifVM>,
+        tracer_context: impl ObjectTracerContext<VerifVM>,
+    ) {
+        rt::forward_weak_refs(worker, tracer_context)
+    }
 }
+
+// ---------------------------------------------------------------------------------------------
+// Collection
+// ---------------------------------------------------------------------------------------------
 
 pub struct VCollection;
 impl Collection<VerifVM> for VCollection {
-    fn stop_all_mutators<F>(_tls: VMWorkerThread, _mutator_visitor: F)
+    fn stop_all_mutators<F>(_tls: VMWorkerThread, mutator_visitor: F)
     where
         F: FnMut(&'static mut Mutator<VerifVM>),
     {
-        unimplemented!()
+        rt::stop_all_mutators(mutator_visitor);
     }
     fn resume_mutators(_tls: VMWorkerThread) {
-        unimplemented!()
+        rt::resume_mutators();
     }
-    fn block_for_gc(_tls: VMMutatorThread) {
-        unimplemented!()
+    fn block_for_gc(tls: VMMutatorThread) {
+        rt::block_for_gc(tls);
     }
-    fn spawn_gc_thread(_tls: VMThread, _ctx: GCThreadContext<VerifVM>) {
-        // unit components never run a GC; GC threads are not started.
+    fn spawn_gc_thread(tls: VMThread, ctx: GCThreadContext<VerifVM>) {
+        rt::spawn_gc_thread(tls, ctx);
+    }
+    fn out_of_memory(tls: VMThread, err_kind: AllocationError) {
+        rt::out_of_memory(tls, err_kind);
+    }
+    fn schedule_finalization(_tls: VMWorkerThread) {
+        ev(Kind::VmMisc, 1, 0);
+    }
+    fn post_forwarding(_tls: VMWorkerThread) {
+        ev(Kind::VmMisc, 2, 0);
     }
 }
+
+// ---------------------------------------------------------------------------------------------
+// Active plan
+// ---------------------------------------------------------------------------------------------
 
 pub struct VActivePlan;
 impl ActivePlan<VerifVM> for VActivePlan {
     fn number_of_mutators() -> usize {
-        0
+        rt::number_of_mutators()
     }
-    fn is_mutator(_tls: VMThread) -> bool {
-        true
+    fn is_mutator(tls: VMThread) -> bool {
+        rt::is_mutator_tls(tls)
     }
-    fn mutator(_tls: VMMutatorThread) -> &'static mut Mutator<VerifVM> {
-        unimplemented!()
+    fn mutator(tls: VMMutatorThread) -> &'static mut Mutator<VerifVM> {
+        rt::mutator_by_tls(tls)
     }
     fn mutators<'a>() -> Box<dyn Iterator<Item = &'a mut Mutator<VerifVM>> + 'a> {
-        Box::new(std::iter::empty())
+        Box::new(rt::all_mutators().into_iter())
     }
 }
+
+// ---------------------------------------------------------------------------------------------
+// Reference glue: a reference object is an ordinary object with FLAG_REFOBJ; its referent is field 0
+// ---------------------------------------------------------------------------------------------
 
 pub struct VReferenceGlue;
 impl ReferenceGlue<VerifVM> for VReferenceGlue {
     type FinalizableType = ObjectReference;
-    fn set_referent(_reference: ObjectReference, _referent: ObjectReference) {
-        unimplemented!()
+    fn set_referent(reference: ObjectReference, referent: ObjectReference) {
+        let r = reference.to_raw_address().as_usize();
+        obj::wr::<usize>(obj::slot(r, 0), referent.to_raw_address().as_usize());
     }
-    fn get_referent(_object: ObjectReference) -> Option<ObjectReference> {
-        unimplemented!()
+    fn get_referent(object: ObjectReference) -> Option<ObjectReference> {
+        let r = object.to_raw_address().as_usize();
+        ObjectReference::from_raw_address(unsafe { Address::from_usize(obj::field(r, 0)) })
     }
-    fn clear_referent(_object: ObjectReference) {
-        unimplemented!()
+    fn clear_referent(object: ObjectReference) {
+        let r = object.to_raw_address().as_usize();
+        obj::wr::<usize>(obj::slot(r, 0), 0);
     }
-    fn enqueue_references(_references: &[ObjectReference], _tls: VMWorkerThread) {}
+    fn enqueue_references(references: &[ObjectReference], _tls: VMWorkerThread) {
+        rt::enqueue_references(references);
+    }
 }
